@@ -3,6 +3,8 @@
     and Buffer/MuxProofs.v. *)
 From Coq Require Import List ZArith NArith Bool.
 From BBS Require Import Buffer.Algebra Buffer.AlgebraProofs Buffer.Mux Buffer.MuxProofs.
+From BBS Require Import Buffer.AlgebraTask Buffer.MuxSeq.
+From BBS Require Import Common.Sx Run.R15 Buffer.MuxSeqMon Buffer.AlgebraTaskMon.
 Import ListNotations.
 Open Scope Z_scope.
 
@@ -36,6 +38,16 @@ Theorem clone_halves_equal : forall D flt p sib max,
 Proof. intros. split; [apply halves_equal|apply copy_halves_equal]. Qed.
 Print Assumptions clone_halves_equal.
 
+(** Every consumer that completes sees the object's bytes: on the object built
+    by any program, a method that succeeds returns exactly the bytes the Buffer
+    interface promises for it ([expected]: the whole object, the tail from the
+    offset, the requested slice, the size), and (n, io.EOF) only comes from a
+    ReadAt that reaches the end. *)
+Theorem successful_methods_return_the_object : forall D flt p n m,
+  build D flt true p = BNode n -> spec_ok D m (eval D flt n m).
+Proof. intros D flt p n m H. apply eval_spec. exact (build_wf D flt p n H). Qed.
+Print Assumptions successful_methods_return_the_object.
+
 (** GetSizeBytes keeps reporting the object's size unless the buffer has
     become an error buffer. *)
 Theorem size_preserved : forall D flt p n,
@@ -63,18 +75,108 @@ Proof.
 Qed.
 Print Assumptions clones_of_task_buffer_wait_too.
 
-(** If the data was fine the task's error is reported; a data error takes
-    precedence.
-    FULL statement (not proved for ReadAt hitting end-of-file, where the code
-    returns (n, io.EOF) and drops the task's error — see the report):
-      forall n id terr m, terr <> 0 -> completing m -> success (eval n m) ->
-        eval (withTask id terr n) m = Err terr.
-    Proved for every result [Ok _]: *)
-Theorem task_error_reported_if_data_ok_partial : forall D flt n id terr m x,
-  terr <> 0 -> m <> MSize -> m <> MDiscard -> eval D flt n m = Ok x ->
+(** Completion is never reported before the tasks have finished, at any depth
+    (clones of clones of ... buffers with tasks, error handlers in between):
+    for EVERY program, on the object it builds, a completing method — whatever
+    its result, in particular a successful one — has waited for every task
+    attached anywhere along the program, except those that had already
+    finished when the constructors returned ([finished_at_build]: a task given
+    to a trivially cloneable or error buffer runs in the foreground; CloneCopy
+    of a stream consumes it and so waits for its tasks). *)
+Theorem completion_not_before_task : forall D flt p n m,
+  build D flt true p = BNode n -> m <> MSize -> m <> MDiscard ->
+  incl (prog_tasks p) (finished_at_build D flt p ++ waits n m).
+Proof. intros D flt p n m H H1 H2. apply completion_not_before_task; [exact H|split; assumption]. Qed.
+Print Assumptions completion_not_before_task.
+
+(** ... and the same for every handle given to a sibling consumer on the way
+    (it is the object built by a sub-program [q]). *)
+Theorem completion_not_before_task_on_clones : forall D flt p h n,
+  In h (siblings D flt true p) -> fst h = BNode n -> snd h <> MSize -> snd h <> MDiscard ->
+  exists q, subprog q p /\ incl (prog_tasks q) (finished_at_build D flt q ++ waits n (snd h)).
+Proof.
+  intros D flt p h n Hin Hn H1 H2.
+  apply completion_not_before_task_siblings; [exact Hin|exact Hn|split; assumption].
+Qed.
+Print Assumptions completion_not_before_task_on_clones.
+
+(** The EXACT result of every completing method on a buffer with a failed
+    task, for every node (no well-formedness needed): a trivially cloneable
+    buffer has become the task's error; any other buffer reports its own
+    result, except that [Ok] becomes the task's error. *)
+Theorem task_result_exact : forall D flt n id terr m,
+  terr <> 0 -> m <> MSize -> m <> MDiscard ->
+  eval D flt (withTask id terr n) m =
+    if is_plain n then Err terr
+    else match eval D flt n m with Ok _ => Err terr | r => r end.
+Proof. intros D flt n id terr m Ht H1 H2. apply withTask_exact; [exact Ht|split; assumption]. Qed.
+Print Assumptions task_result_exact.
+
+(** Hence: the task's error is what the caller sees exactly when the buffer
+    was trivially cloneable, or the data was fine ([Ok]), or the data error is
+    that very code. *)
+Theorem task_error_reported_exactly_when : forall D flt n id terr m,
+  terr <> 0 -> m <> MSize -> m <> MDiscard ->
+  (eval D flt (withTask id terr n) m = Err terr <->
+   is_plain n = true \/ (exists x, eval D flt n m = Ok x) \/ eval D flt n m = Err terr).
+Proof. intros D flt n id terr m Ht H1 H2. apply task_error_reported_iff; [exact Ht|split; assumption]. Qed.
+Print Assumptions task_error_reported_exactly_when.
+
+(** "Reports the task's error if the data itself was fine" ([success]: Ok, or
+    ReadAt's (n, io.EOF)).  The statement without the last hypothesis is FALSE
+    on the model and on the code (observation O3; see
+    [task_error_dropped_at_readat_eof] and the Example below): the one
+    exception is ReadAt hitting end-of-file on a buffer that is not trivially
+    cloneable ([eof_exception]). *)
+Theorem task_error_reported_if_data_ok : forall D flt n id terr m,
+  terr <> 0 -> m <> MSize -> m <> MDiscard -> success (eval D flt n m) ->
+  ~ eof_exception D flt n m ->
   eval D flt (withTask id terr n) m = Err terr.
-Proof. intros D flt n id terr m x Ht H1 H2. apply task_error_reported; [exact Ht|split; assumption]. Qed.
-Print Assumptions task_error_reported_if_data_ok_partial.
+Proof.
+  intros D flt n id terr m Ht H1 H2. apply task_error_reported_unless_eof; [exact Ht|split; assumption].
+Qed.
+Print Assumptions task_error_reported_if_data_ok.
+
+(** In the exceptional case the task's error is dropped: the caller gets the
+    bytes and io.EOF exactly as if the task had succeeded. *)
+Theorem task_error_dropped_at_readat_eof : forall D flt n id terr m,
+  terr <> 0 -> eof_exception D flt n m ->
+  exists len off b, m = MReadAt len off /\ eval D flt n m = Eof b /\
+                    eval D flt (withTask id terr n) m = Eof b.
+Proof. exact task_error_dropped_at_readat_eof. Qed.
+Print Assumptions task_error_dropped_at_readat_eof.
+
+Example task_error_dropped_example :
+  let n := NReader (Some 3%nat) (Some 13) in
+  eval [1; 2; 3] FNone n (MReadAt 5 0) = Eof [1; 2; 3] /\
+  eval [1; 2; 3] FNone (withTask 0 14 n) (MReadAt 5 0) = Eof [1; 2; 3] /\
+  eval [1; 2; 3] FNone (withTask 0 14 n) (MReadAt 3 0) = Err 14 /\
+  Algebra.run [1; 2; 3] FNone true (WithTask (Base KReader) 0 14) (MReadAt 5 0) = Eof [1; 2; 3].
+Proof. exact readat_eof_drops_task_error. Qed.
+
+(** A data error takes precedence. *)
+Theorem data_error_takes_precedence : forall D flt n id terr m c,
+  terr <> 0 -> m <> MSize -> m <> MDiscard -> is_plain n = false -> eval D flt n m = Err c ->
+  eval D flt (withTask id terr n) m = Err c.
+Proof. intros D flt n id terr m c Ht H1 H2. apply data_error_first; [exact Ht|split; assumption]. Qed.
+Print Assumptions data_error_takes_precedence.
+
+(** At any depth: once a task has failed, no handle derived from the buffer by
+    CloneStream, CloneCopy or further WithTask ever reports plain success from
+    a completing method (it reports the task's error, a data error, or the
+    ReadAt end-of-file exception above). *)
+Theorem failed_task_never_ok_on_derived : forall D flt n id terr,
+  terr <> 0 ->
+  never_ok D flt (withTask id terr n) /\
+  (forall r sv, never_ok D flt r -> never_ok D flt (cloneStream true sv r)) /\
+  (forall r max r', never_ok D flt r -> cloneCopy D flt true max r = BNode r' -> never_ok D flt r') /\
+  (forall r id' terr', never_ok D flt r -> never_ok D flt (withTask id' terr' r)).
+Proof.
+  intros D flt n id terr Ht. split; [apply never_ok_withTask_failing; exact Ht|].
+  split; [intros r sv; apply never_ok_cloneStream|].
+  split; [intros r max r'; apply never_ok_cloneCopy|intros r id' terr'; apply never_ok_withTask].
+Qed.
+Print Assumptions failed_task_never_ok_on_derived.
 
 (** Finding F1 (pinned tree): with decorateBuffer copying only base and task,
     the same model panics on a clone of a buffer with a task. *)
@@ -106,18 +208,46 @@ Theorem mux_no_panic : forall nch term progs sched s,
 Proof. intros. eapply no_panic, run_inv; [apply init_inv; eassumption|eassumption]. Qed.
 Print Assumptions mux_no_panic.
 
-(** every consumer has seen a prefix of the sequence the source produced (the
-    same chunks in the same order, or the same error), and every consumer that
-    has not closed has seen all of it.
-    FULL statement additionally says that a finished consumer with program
-    Read^k has exactly the first k results; the length part is checked on the
-    implementation by the monitor but not proved here. *)
-Theorem same_sequence_partial : forall nch term progs sched s c,
-  progs <> [] -> Mux.run nch term (init progs) sched = Some s -> In c (cs s) ->
-  (exists k, k <= srcpos s /\ got c = items nch term k) /\
-  (st c <> CDone -> got c = items nch term (srcpos s)).
-Proof. intros. eapply same_sequence; [eapply run_inv; [apply init_inv; eassumption|eassumption]|assumption]. Qed.
-Print Assumptions same_sequence_partial.
+(** Same sequence, full strength.  In every reachable state, consumer i with
+    program p (k = [prog_reads p] Reads: Read^k ; Close, or Discard with k = 0)
+    has completed exactly [completed k c] = k - (Reads not yet issued) - (1 if
+    parked in Read) of them, and their results are, in order, the first that
+    many results the underlying source produced (chunks, then the same error
+    or EOF for ever); a consumer that has not closed is level with the source;
+    a consumer that has closed has exactly the first k results. *)
+Theorem same_sequence : forall nch term progs sched s,
+  progs <> [] -> Mux.run nch term (init progs) sched = Some s ->
+  length (cs s) = length progs /\
+  forall i c p, nth_error (cs s) i = Some c -> nth_error progs i = Some p ->
+    let k := prog_reads p in
+    reads c + b2n (is_st CWaitRead c) <= k /\
+    got c = items nch term (completed k c) /\
+    completed k c <= srcpos s /\
+    (st c <> CDone -> completed k c = srcpos s) /\
+    (st c = CDone -> got c = items nch term k).
+Proof. exact same_sequence_full. Qed.
+Print Assumptions same_sequence.
+
+(** The same, result by result: the j-th Read result of every consumer equals
+    the j-th result the source produced, for every j below the number of Reads
+    the consumer has completed, and the consumer holds no other results. *)
+Theorem same_sequence_pointwise : forall nch term progs sched s i c p,
+  progs <> [] -> Mux.run nch term (init progs) sched = Some s ->
+  nth_error (cs s) i = Some c -> nth_error progs i = Some p ->
+  length (got c) = completed (prog_reads p) c /\
+  completed (prog_reads p) c <= srcpos s /\
+  forall j, j < completed (prog_reads p) c -> nth_error (got c) j = Some (item_at nch term j).
+Proof. exact MuxSeq.same_sequence_pointwise. Qed.
+Print Assumptions same_sequence_pointwise.
+
+(** every complete run (all consumers finished — by [no_stuck] and
+    [all_terminate] the only maximal ones) leaves consumer i with exactly the
+    first k_i results of the source: identical sequences for all who read *)
+Theorem same_sequence_at_the_end : forall nch term progs sched s,
+  progs <> [] -> Mux.run nch term (init progs) sched = Some s -> all_done s = true ->
+  map got (cs s) = map (fun p => items nch term (prog_reads p)) progs.
+Proof. exact final_results. Qed.
+Print Assumptions same_sequence_at_the_end.
 
 (** the source is closed at most once, and it is closed exactly when every
     consumer has finished *)
@@ -155,6 +285,37 @@ Example m1_example :
   match Mux.run 2 5 (init [(3, false, 100%N); (3, false, 1%N); (0, true, 1%N)]) [0; 1; 2; 0; 2; 1; 0; 1; 1; 0; 0; 1] with
   | Some s => map got (cs s) = [[0; 1; -6]; [0; 1; -6]; []]%Z /\ closed s = 1 /\ all_done s = true
               /\ nval s = true /\ minchunk s = Some 1%N
+  | None => False
+  end.
+Proof. vm_compute. repeat split; reflexivity. Qed.
+
+(** ** The monitor is silent on the model
+
+    [mon15] (the property as a decidable check on an observation) never fires
+    on the observation the model itself predicts: for every decorator-program
+    input without any condition, and for every schedule input with at least
+    one consumer and a terminal code other than 99 (the harness accepts codes
+    0..16; item -(1+99) = -100 is its marker for a panicked consumer). *)
+Theorem monitor_silent_on_model : forall inp,
+  (sx_nth inp 0 = A 2%Z -> sx_list (sx_nth inp 3) <> [] /\ sx_Z (sx_nth inp 2) <> 99%Z) ->
+  mon15 inp (run15 inp) = [].
+Proof. exact mon15_silent_on_model. Qed.
+Print Assumptions monitor_silent_on_model.
+
+(** Both hypotheses are needed (inputs outside the harness's domain). *)
+Example monitor_domain_boundary :
+  mon15 (L [A 2; A 1; A 99; L [L [A 2; A 0; A 1]]; L []]%Z)
+        (run15 (L [A 2; A 1; A 99; L [L [A 2; A 0; A 1]]; L []]%Z)) = [11%Z] /\
+  mon15 (L [A 2; A 1; A 0; L []; L []]%Z) (run15 (L [A 2; A 1; A 0; L []; L []]%Z)) = [13%Z].
+Proof. vm_compute. split; reflexivity. Qed.
+
+(** Non-vacuity of [same_sequence]: mid-run, consumer 0 is parked in its second
+    Read (1 of 3 completed), consumer 1 has completed 1 of 2 and is level with
+    the source. *)
+Example same_sequence_midrun :
+  match Mux.run 2 5 (init [(3, false, 100%N); (2, false, 1%N)]) [0; 1; 0; 1; 0] with
+  | Some s => map (completed 3) (firstn 1 (cs s)) = [1] /\ map (completed 2) (skipn 1 (cs s)) = [1] /\
+              map got (cs s) = [[0]; [0]]%Z /\ srcpos s = 1 /\ map st (cs s) = [CWaitRead; CReady]
   | None => False
   end.
 Proof. vm_compute. repeat split; reflexivity. Qed.
